@@ -849,24 +849,28 @@ def check_smooth_width(ctx, repo):
             break
         prelude.append(st)
     bad = None
+    sig = f.params[0]
     try:
         for w in range(1, 13):
-            env = minieval.run([st for st in prelude if not (isinstance(st, ast.Expr) and isinstance(st.value, ast.Constant))], {wparam: w}, {'__assume__': lambda e: True},
-                               lambda s_, e_: None)
             want = w if w % 2 else w + 1
-            if env is None:
-                # the prelude returned: allowed only when the window is narrower than 3
-                if want >= 3 and bad is None:
-                    bad = (w, 'returns its input unchanged', want)
-                continue
-            if want < 3 and bad is None:
-                bad = (w, 'does not return the input unchanged', want)
-            for st, d_ in divisors:
-                v = minieval.ev(d_, env, {})
-                if v is minieval.TOP:
-                    raise minieval.Unknown('divisor `%s` has no integer value' % src(d_))
-                if v != want and bad is None:
-                    bad = (w, 'averages over %s samples (`%s`)' % (v, src(st)[:40]), want)
+            # for every signal length 1..20 (shorter than, equal to and longer than the window), concretely
+            for n_ in range(1, 21):
+                opq = {'%s.size' % sig: n_, 'len(%s)' % sig: n_, '%s.shape[0]' % sig: n_}
+                env = minieval.run([st for st in prelude if not (isinstance(st, ast.Expr) and isinstance(st.value, ast.Constant))], {wparam: w}, opq,
+                                   lambda s_, e_: None)
+                if env is None:
+                    # the prelude returned: allowed only when the window is narrower than 3
+                    if want >= 3 and bad is None:
+                        bad = (w, 'returns its input unchanged (signal of %d samples)' % n_, want)
+                    continue
+                if want < 3 and bad is None:
+                    bad = (w, 'does not return the input unchanged', want)
+                for st, d_ in divisors:
+                    v = minieval.ev(d_, env, opq)
+                    if v is minieval.TOP:
+                        raise minieval.Unknown('divisor `%s` has no integer value' % src(d_))
+                    if v != want and bad is None:
+                        bad = (w, 'averages over %s samples for a signal of %d samples (`%s`)' % (v, n_, src(st)[:40]), want)
     except minieval.Unknown as e:
         raise AnalysisError('C17: the window arithmetic of smooth is not an idiom the index evaluator understands (%s)' % e)
     ctx.check('C17.SMOOTH', bad is None, f, divisors[0][0], 'smooth: the window is the requested width made odd for every requested width 1..12 (divisor `%s`), and only windows '
